@@ -94,4 +94,78 @@ theorem C02_password_only_via_kdf (P : Prims) (w w' F : Bytes)
     passDecrypt P w' F = passDecrypt P w F := by
   rw [passDecrypt_unfold, passDecrypt_unfold, h]
 
+/-! ### non-vacuity -/
+
+/-- toy primitives whose AEAD tag depends on the key (first 16 key bytes), so that a wrong key is *rejected* -/
+def keyedAead : Aead where
+  enc k _ _ p := p ++ (k ++ zeros 16).take 16
+  dec k _ _ c := if c.length < 16 then none else
+    if c.drop (c.length - 16) = (k ++ zeros 16).take 16 then some (c.take (c.length - 16)) else none
+
+theorem keyedAead_lawful : keyedAead.Lawful where
+  dec_enc := by
+    intro k n ad p _
+    have hl : ((k ++ zeros 16).take 16).length = 16 := by simp [zeros]
+    simp only [keyedAead, List.length_append, hl]
+    rw [if_neg (by omega)]
+    simp [hl]
+  enc_length := by intro k n ad p _; simp [keyedAead, zeros]
+  dec_sound := by
+    intro k n ad c p _ h
+    simp only [keyedAead] at h ⊢
+    split at h
+    · simp at h
+    · split at h
+      · rename_i h16 hz
+        simp only [Option.some.injEq] at h
+        rw [← h, ← hz, List.take_append_drop]
+      · simp at h
+
+def keyedPrims : Prims := { toyPrims with aead := keyedAead }
+
+def pwReads : List Bytes := [[1,2,3], [4], []]
+
+theorem pwReads_wf : wellFormedReads pwReads := by
+  refine ⟨fun h => absurd h (by decide), fun _ => ⟨fun h => absurd h (by decide), fun _ => ⟨fun _ => rfl, fun _ => trivial⟩⟩⟩
+
+theorem pwReads_le : ∀ c ∈ pwReads, c.length ≤ chunkSize := by decide
+
+theorem keyed_kdf_length (pw salt : Bytes) : (keyedPrims.kdf pw salt).length = 32 := by
+  simp [keyedPrims, toyPrims, zeros]; omega
+
+/-- hypotheses of `C02_roundtrip` are satisfiable — with the empty password -/
+example : ∃ ct, passEncrypt keyedPrims [] (zeros 32) pwReads = (ct, .ok) ∧
+    (∃ writes, passDecrypt keyedPrims [] ct = (writes, .ok) ∧ writes.flatten = pwReads.flatten) ∧
+    ct.length = 36 + 32 * (fileChunks pwReads).length + pwReads.flatten.length :=
+  C02_roundtrip keyedPrims keyedAead_lawful [] (zeros 32) pwReads (by decide) (keyed_kdf_length _ _) pwReads_wf pwReads_le
+
+/-- `C02_roundtrip_concrete`: empty password, hypotheses satisfiable (nothing is evaluated) -/
+example := C02_roundtrip_concrete [] (zeros 32) pwReads (by decide) pwReads_wf pwReads_le
+
+/-- hypotheses of `C02_wrong_password` are satisfiable -/
+example (ws : List Bytes) (res : Res)
+    (h : passDecrypt keyedPrims [2] (passEncrypt keyedPrims [1] (zeros 32) pwReads).1 = (ws, res)) :=
+  C02_wrong_password keyedPrims keyedAead_lawful [1] [2] (zeros 32) pwReads (by decide) (keyed_kdf_length _ _)
+    pwReads_wf pwReads_le ws res h
+
+/-- first disjunct occurs: with a key-dependent AEAD the wrong password is rejected, nothing written … -/
+example : passDecrypt keyedPrims [2] (passEncrypt keyedPrims [1] (zeros 32) pwReads).1 = ([], .auth) := by decide
+/-- … the right one is accepted … -/
+example : passDecrypt keyedPrims [1] (passEncrypt keyedPrims [1] (zeros 32) pwReads).1 = ([[1,2,3],[4]], .ok) := by decide
+/-- … second disjunct (KDF collision) can occur: the toy KDF truncates `pw ++ salt` to 32 bytes, so two passwords
+    that differ only after byte 32 collide, and the "wrong" password decrypts … -/
+example : passDecrypt keyedPrims (zeros 32 ++ [2]) (passEncrypt keyedPrims (zeros 32 ++ [1]) (zeros 32) pwReads).1
+    = ([[1,2,3],[4]], .ok) := by decide
+/-- … third disjunct (cross-key open) can occur: the toy AEAD of C01 ignores its key, so a wrong password with a
+    different derived key still opens record 0.  Neither bad event can be dropped from the statement. -/
+example : toyPrims.kdf [2] (zeros 32) ≠ toyPrims.kdf [1] (zeros 32) ∧
+    passDecrypt toyPrims [2] (passEncrypt toyPrims [1] (zeros 32) pwReads).1 = ([[1,2,3],[4]], .ok) := by decide
+
+/-- hypothesis of `C02_password_only_via_kdf` is satisfiable with two different passwords -/
+example (F : Bytes) : passDecrypt keyedPrims (zeros 32 ++ [2]) F = passDecrypt keyedPrims (zeros 32 ++ [1]) F :=
+  C02_password_only_via_kdf keyedPrims _ _ F (by
+    show (((zeros 32 ++ [2]) ++ (F.drop 4).take 32) ++ zeros 32).take 32 = (((zeros 32 ++ [1]) ++ (F.drop 4).take 32) ++ zeros 32).take 32
+    simp only [List.append_assoc]
+    rw [List.take_left' (by decide), List.take_left' (by decide)])
+
 end Kestrel
